@@ -388,6 +388,28 @@ def weighted(prog, ctx):
     mean = sum(xs) / N
     s2 = sum((x - mean) ** 2 for x in xs) / (N - 1)
     okse = is_zero(sp.simplify(e4.subs(eq) ** 2 - s2 / N))
+    # translation law by construction: for constant data every accumulated term of the error vanishes identically, so the
+    # result is an exact zero - not the rounding residue of sums that cancel only against each other (sqrt of a negative
+    # residue is NaN)
+    cst = Symbol('c_const', real=True)
+    repc = {}
+    for i in range(N):
+        repc[Wf(i)] = ws[i]
+        repc[Xf(i)] = cst
+    residual = []
+    for sm in sorted(err.atoms(sp.Sum), key=str):
+        if not any(a_.func == Xf for a_ in sm.atoms(sp.core.function.AppliedUndef)):
+            continue
+        if any(sm in other.atoms(sp.Sum) and other is not sm for other in err.atoms(sp.Sum)):
+            continue        # an inner sum (the average inside a summand)
+        v4 = sp.simplify(sm.subs(sub).doit().subs(repc))
+        if v4 != 0:
+            residual.append('%s -> %s' % (str(sm)[:90], str(v4)[:60]))
+    ctx.decide(R, 'Weighted_Average:constant-data', fn, not residual,
+               'for constant data every accumulated sum of the standard error is identically zero (the values enter only through x_i - average)',
+               'for constant data the accumulated sums do not vanish one by one (%s): the standard error is then the rounding residue of their cancellation, '
+               'NaN when it is negative, and it loses digits when the data are shifted' % '; '.join(residual[:2]),
+               witness={'reproducer': 'Weighted_Average({(0.7,w=1),(0.7,w=2)}) returns {0.7, NaN}; shifting x by 2^20 changes the error by 1e-4 relative'} if residual else None)
     ctx.decide(R, 'Weighted_Average', fn, okavg and okse, 'average = sum wx/sum w; for equal weights the Cochran error equals s/sqrt(N) (checked with N=4 symbolic data)',
                'weighted average/standard error differ from the definition (average ok=%s, equal-weight reduction ok=%s)' % (okavg, okse))
 
